@@ -47,6 +47,8 @@ fn run(seq: &[Op]) -> Option<usize> {
         let b = m.apply(op);
         let same = a == b && real.len() == m.cur.len() && real[0..real.len()] == m.cur[..] && real.peek().copied() == m.cur.last().copied();
         if !same { return Some(i); }
+        // Index<Range<usize>> (used by the slice nodes): every sub-range of the current contents
+        for a in 0..=m.cur.len() { for b in a..=m.cur.len() { if real[a..b] != m.cur[a..b] { return Some(i); } } }
     }
     None
 }
